@@ -43,6 +43,7 @@ const (
 	KPTMap    = "*taggable-map"
 	KTMaps    = "[]taggable-map"
 	KPTMaps   = "[]*taggable-map"
+	KTStruct  = "*taggable-struct"
 )
 
 // Map value layouts.
@@ -123,6 +124,12 @@ func (s *Shape) write(sb *strings.Builder) {
 	case KPTMap:
 		sb.WriteString("->")
 		s.Kids[0].write(sb)
+	case KTStruct:
+		sb.WriteString("{Attrs:")
+		s.Kids[0].write(sb)
+		sb.WriteString(" Plain:")
+		s.Kids[1].write(sb)
+		sb.WriteString("}")
 	case KIfaces, KTMaps, KPTMaps:
 		sb.WriteString("[")
 		for i, k := range s.Kids {
@@ -195,7 +202,7 @@ func genLeaf(t *rapid.T, kinds []string) *Shape {
 func genField(t *rapid.T, depth int) *Shape {
 	choices := []string{"leaf", "leaf", "leaf", "leaf", "inert"}
 	if depth > 0 {
-		choices = append(choices, KStruct, KPStruct, KPStruct, KStructs, KPStrcts, KIface, KIfaces, KMap, KMap, KTMap, KPBStruct, KPTMap, KTMaps, KPTMaps)
+		choices = append(choices, KStruct, KPStruct, KPStruct, KStructs, KPStrcts, KIface, KIfaces, KMap, KMap, KTMap, KPBStruct, KPTMap, KTMaps, KPTMaps, KTStruct)
 	}
 	var s *Shape
 	switch c := rapid.SampledFrom(choices).Draw(t, "fieldKind"); c {
@@ -229,6 +236,8 @@ func genField(t *rapid.T, depth int) *Shape {
 		s = genTMap(t, depth-1)
 	case KPTMap:
 		s = &Shape{K: KPTMap, Kids: []*Shape{genTMap(t, depth-1)}}
+	case KTStruct:
+		s = genTStruct(t)
 	case KTMaps, KPTMaps:
 		s = &Shape{K: c}
 		n := rapid.IntRange(0, 2).Draw(t, "n")
@@ -377,6 +386,18 @@ func genTMap(t *rapid.T, depth int) *Shape {
 	return s
 }
 
+// genTStruct draws a *TStructT: a Taggable struct whose Tags() point into its Attrs map
+// ("/Attrs/<key>", the key carries its own classification like the taggable map keys do).
+func genTStruct(t *rapid.T) *Shape {
+	s := &Shape{K: KTStruct}
+	attrs := genTMap(t, 0)
+	plain := genMapOf(t, 0, MSS)
+	plain.Nil = false
+	s.Kids = []*Shape{attrs, plain}
+	s.Nil = rapid.IntRange(0, 9).Draw(t, "nilPtr") == 0
+	return s
+}
+
 func cloneShape(s *Shape) *Shape {
 	c := *s
 	c.Kids = nil
@@ -408,6 +429,7 @@ const (
 	TIfaces    = "[]interface{}"
 	TTMaps     = "[]taggable-map"
 	TPTMaps    = "[]*taggable-map"
+	TTStruct   = "*taggable-struct"
 	TNil       = "nil"
 	TTypedNil  = "typed-nil"
 	TZero      = "zero-struct"
@@ -431,7 +453,7 @@ func Gen(t *rapid.T, maxDepth int) Payload {
 	p := Payload{Seed: rapid.Uint64().Draw(t, "canarySeed")}
 	depth := rapid.IntRange(0, maxDepth).Draw(t, "depth")
 	p.Top = rapid.SampledFrom([]string{TPStruct, TPStruct, TPStruct, TPStruct, TPStruct, TPStruct, TStruct, TStructs, TPStructs, TStrs, TPStrs, TBytess, TPString, TPBytes, TString, TBytes,
-		TTMap, TPTMap, TMap, TMap, TPMap, TMaps, TIfaces, TTMaps, TPTMaps, TNil, TTypedNil, TZero}).Draw(t, "top")
+		TTMap, TPTMap, TMap, TMap, TPMap, TMaps, TIfaces, TTMaps, TPTMaps, TTStruct, TNil, TTypedNil, TZero}).Draw(t, "top")
 	switch p.Top {
 	case TPStruct, TStruct, TTypedNil, TZero:
 		p.Root = genStruct(t, depth)
@@ -463,6 +485,9 @@ func Gen(t *rapid.T, maxDepth int) Payload {
 		}
 	case TIfaces:
 		p.Root = genIfaces(t, depth, true)
+	case TTStruct:
+		p.Root = genTStruct(t)
+		p.Root.Nil = false
 	case TTMaps, TPTMaps:
 		p.Root = &Shape{K: KTMaps}
 		if p.Top == TPTMaps {
@@ -505,6 +530,28 @@ func (m TMapT) Tags() ([]encrypt.PointerTag, error) {
 		parts := strings.Split(k, "|")
 		if len(parts) == 3 {
 			out = append(out, encrypt.PointerTag{Pointer: "/" + k, Classification: encrypt.DataClassification(parts[1]), Filter: encrypt.FilterOperation(parts[2])})
+		}
+	}
+	return out, nil
+}
+
+// TStructT is a Taggable struct: class-tagged fields plus a map whose keys are tagged through
+// pointers of the form /Attrs/<key>.
+type TStructT struct {
+	Pub   string `class:"public"`
+	Sec   string `class:"secret"`
+	Sens  []byte `class:"sensitive,hmac-sha256"`
+	Attrs map[string]interface{}
+	Plain map[string]string
+	Count int
+}
+
+func (t *TStructT) Tags() ([]encrypt.PointerTag, error) {
+	var out []encrypt.PointerTag
+	for k := range t.Attrs {
+		parts := strings.Split(k, "|")
+		if len(parts) == 3 {
+			out = append(out, encrypt.PointerTag{Pointer: "/Attrs/" + k, Classification: encrypt.DataClassification(parts[1]), Filter: encrypt.FilterOperation(parts[2])})
 		}
 	}
 	return out, nil
@@ -564,6 +611,8 @@ func typeOf(s *Shape) reflect.Type {
 		return tTMap
 	case KPTMap:
 		return reflect.PointerTo(tTMap)
+	case KTStruct:
+		return reflect.TypeOf(&TStructT{})
 	case KTMaps:
 		return reflect.SliceOf(tTMap)
 	case KPTMaps:
